@@ -2,25 +2,23 @@
    Property theorems only; proofs live in Proofs/InputsP.v, Proofs/AcceptsP.v, Proofs/DefaultsP.v. *)
 From Coq Require Import List String Ascii ZArith Bool.
 From AC Require Import Base.Json Base.Strs Gql.InSchema Gql.InCoerce Model.Names Model.Defaults Model.Inputs
-  Py.PyEval Proofs.InputsP Proofs.AcceptsP Proofs.DefaultsP.
+  Py.PyEval Proofs.InputsP Proofs.AcceptsP Proofs.DefaultsP Proofs.ValidateP Proofs.ByNameP.
 Import ListNotations.
 Local Open Scope string_scope.
 
 (* ================= annotation = image of the GraphQL type ================= *)
-Definition C06_ann_image_full : Prop := forall s cs t,
-  fst (parse_input_field_type s cs t true) = image s cs t true.
-
-(* proved outside finding class F21 (g21: no nullable item type under a list whose own flag is non-null) *)
-Theorem C06_input_ann_is_image_partial : forall s cs t nb, g21 t nb = true ->
+(* full statement, unguarded since the list-item fix 1ef155d (was: partial under g21 + refuted by [String]!) *)
+Theorem C06_input_ann_is_image : forall s cs t nb,
   fst (parse_input_field_type s cs t nb) = image s cs t nb.
 Proof. exact ann_is_image. Qed.
-Print Assumptions C06_input_ann_is_image_partial.
+Print Assumptions C06_input_ann_is_image.
 
-Theorem C06_ann_image_refuted : ~ C06_ann_image_full.
-Proof.
-  intro H. specialize (H [] [] (TNonNull (TList (TNamed "String")))). vm_compute in H. discriminate.
-Qed.
-Print Assumptions C06_ann_image_refuted.
+(* regression of the former F21 witness: nullable items under a non-null list are Optional now *)
+Example C06_nullable_items_under_nonnull_list :
+  fst (parse_input_field_type [] [] (TNonNull (TList (TNamed "String"))) true) = AList (AOpt AStr) /\
+  fst (parse_input_field_type [] [] (TList (TNonNull (TList (TNamed "Int")))) true)
+    = AOpt (AList (AList (AOpt AInt))).
+Proof. vm_compute. auto. Qed.
 
 (* ================= required iff non-null without schema default; wire name kept ================= *)
 Theorem C06_required_iff : forall s cs snake f,
@@ -46,33 +44,48 @@ Definition C06_accepts_full : Prop := forall s cs snake n t j cv,
   accepts n (env_of s cs snake) (fst (parse_input_field_type s cs t true)) j = true.
 
 (* proved for values keyed by GraphQL names (the alias side of populate_by_name), at every fuel the
-   coercion succeeds with, under the guards: schema_ok = no input type with colliding field names (F18),
-   no field type in class F21, no scalar named Upload; g21 for the top-level type *)
-Theorem C06_input_accepts_partial : forall s cs snake, schema_ok snake s = true ->
-  forall n t j cv, g21 t true = true -> coerce_input n s t j = Some cv ->
+   coercion succeeds with, under the guard schema_ok = no input type with colliding field names (F18) and no
+   scalar named Upload.  No exclusion for list shapes any more (F21 fixed by 1ef155d). *)
+Theorem C06_input_accepts : forall s cs snake, schema_ok snake s = true ->
+  forall n t j cv, coerce_input n s t j = Some cv ->
   accepts n (env_of s cs snake) (fst (parse_input_field_type s cs t true)) j = true.
 Proof.
-  intros s cs snake OK n t j cv G C.
-  apply (accepts_complete s cs snake OK n t true j cv G); [discriminate | exact C].
+  intros s cs snake OK n t j cv C.
+  apply (accepts_complete s cs snake OK n t true j cv); [discriminate | exact C].
 Qed.
-Print Assumptions C06_input_accepts_partial.
+Print Assumptions C06_input_accepts.
+
+(* the same value with every object key replaced, at every nesting level, by the generated Python field name
+   (what a user writes with keyword arguments) is accepted too: populate_by_name *)
+Theorem C06_input_accepts_by_name : forall s cs snake, schema_ok snake s = true ->
+  forall n t j cv, coerce_input n s t j = Some cv ->
+  accepts n (env_of s cs snake) (fst (parse_input_field_type s cs t true)) (rename n s snake t j) = true.
+Proof.
+  intros s cs snake OK n t j cv C.
+  apply (accepts_by_name s cs snake OK n t true j cv); [discriminate | exact C].
+Qed.
+Print Assumptions C06_input_accepts_by_name.
 
 Definition S21 : schema := [("In", DInput [{| i_name := "a"; i_type := TNonNull (TList (TNamed "String")); i_default := None |}])].
 Definition V21 : json := JObj [("a", JArr [JNull])].
 
-Theorem C06_accepts_refuted_nullable_item : exists s cs snake n t j cv,
-  coerce_input n s t j = Some cv /\
-  accepts n (env_of s cs snake) (fst (parse_input_field_type s cs t true)) j = false.
-Proof.
-  exists S21, [], true, 5, (TNonNull (TNamed "In")), V21, (CObj [("a", CList [CNull])]). vm_compute. auto.
-Qed.
-Print Assumptions C06_accepts_refuted_nullable_item.
+(* the former F21 witness is accepted now (kept as a regression case; K3 replays it on the real classes) *)
+Example C06_nullable_item_accepted :
+  coerce_input 5 S21 (TNonNull (TNamed "In")) V21 = Some (CObj [("a", CList [CNull])]) /\
+  accepts 5 (env_of S21 [] true) (fst (parse_input_field_type S21 [] (TNonNull (TNamed "In")) true)) V21 = true.
+Proof. vm_compute. auto. Qed.
 
+(* what still refutes the full statement: colliding field names (F18) *)
+Definition S18 : schema :=
+  [("In", DInput [{| i_name := "foo_bar"; i_type := TNamed "String"; i_default := None |};
+                  {| i_name := "fooBar"; i_type := TNamed "Int"; i_default := None |}])].
 Theorem C06_accepts_full_refuted : ~ C06_accepts_full.
 Proof.
-  intro H. specialize (H S21 [] true 5 (TNonNull (TNamed "In")) V21 (CObj [("a", CList [CNull])]) eq_refl).
+  intro H. specialize (H S18 [] true 5 (TNonNull (TNamed "In")) (JObj [("foo_bar", JStr "x")])
+                         (CObj [("foo_bar", CStr "x")]) eq_refl).
   vm_compute in H. discriminate.
 Qed.
+Print Assumptions C06_accepts_full_refuted.
 
 (* a value lacking a field the schema requires is refused (the key is absent under both names) *)
 Theorem C06_refuses_missing_required : forall s cs snake nm fs f kv n,
@@ -82,6 +95,47 @@ Theorem C06_refuses_missing_required : forall s cs snake nm fs f kv n,
   accepts n (env_of s cs snake) (AClass nm) (JObj kv) = false.
 Proof. exact refuses_missing_required. Qed.
 Print Assumptions C06_refuses_missing_required.
+
+(* ================= validate (builds the instance, calls defaults) vs accepts (shape) ================= *)
+(* full: the complete validation succeeds only on values of accepted shape *)
+Theorem C06_validate_implies_accepts : forall E n a j v, validate n E a j = Ok v -> accepts n E a j = true.
+Proof. exact validate_accepts. Qed.
+Print Assumptions C06_validate_implies_accepts.
+
+(* partial: an accepted value builds, provided the default expressions evaluate at every fuel below n
+   (defaults_ok; satisfiable exactly when no default is an object literal, whose model_validate needs fuel:
+   those are covered by K2/K3 and by Example C06_object_default_ok) *)
+Theorem C06_accepts_implies_validate_partial : forall E n, defaults_ok n E ->
+  forall a j, accepts n E a j = true -> exists v, validate n E a j = Ok v.
+Proof. exact accepts_validate. Qed.
+Print Assumptions C06_accepts_implies_validate_partial.
+
+(* composition: every value the schema's coercion accepts builds the real instance *)
+Theorem C06_input_builds_partial : forall s cs snake, schema_ok snake s = true ->
+  forall n, defaults_ok n (env_of s cs snake) ->
+  forall t j cv, coerce_input n s t j = Some cv ->
+  exists v, validate n (env_of s cs snake) (fst (parse_input_field_type s cs t true)) j = Ok v.
+Proof.
+  intros s cs snake OK n D t j cv C. apply (accepts_validate _ n D).
+  apply (accepts_complete s cs snake OK n t true j cv); [discriminate | exact C].
+Qed.
+Print Assumptions C06_input_builds_partial.
+
+Definition SV : schema :=
+  [("Kind", DEnum ["A"; "class"]);
+   ("In", DInput [{| i_name := "k"; i_type := TNamed "Kind"; i_default := Some (CEnum "class") |};
+                  {| i_name := "l"; i_type := TList (TNamed "Int"); i_default := Some (CList [CInt 1; CNull]) |};
+                  {| i_name := "fooBar"; i_type := TNonNull (TNamed "Int"); i_default := None |};
+                  {| i_name := "self"; i_type := TNamed "In"; i_default := None |}])].
+Example C06_defaults_ok_satisfiable : schema_ok true SV = true /\ defaults_ok 7 (env_of SV [] true).
+Proof.
+  split; [vm_compute; reflexivity|].
+  intros m cl f e _ Hcl Hf He. simpl in Hcl. destruct Hcl as [<-|[]].
+  vm_compute in Hf.
+  repeat (destruct Hf as [<-|Hf]; [vm_compute in He; destruct He as [He|He]; inversion He; subst;
+                                   destruct m; vm_compute; eauto|]).
+  contradiction.
+Qed.
 
 (* the converse (accepted by the model => accepted by the schema) is NOT claimed: pydantic ignores unknown
    keys, converts "12" to int, and Any accepts null for a non-null custom scalar *)
@@ -99,8 +153,8 @@ Definition C06_default_full : Prop := forall s cs snake f lit n cv m,
   exists b v, default_body (rhs_default (p_value (gen_field s cs snake f))) = Some b /\
               eval m (env_of s cs snake) b = Ok v /\ dump v = Some (json_of_cvalue cv).
 
-(* proved for literals in good_default: scalars of the type's own kind, enum values that are not Python
-   keywords, null, and (nested) lists of those; at every fuel, by induction on the literal *)
+(* proved for literals in good_default: scalars of the type's own kind, enum values (keyword-named ones
+   included since fix a742038), null, and (nested) lists of those; at every fuel, by induction on the literal *)
 Theorem C06_default_roundtrip_partial : forall s cs snake f lit n cv m,
   i_default f = Some lit -> good_default s lit (i_type f) = true ->
   coerced_default n s (i_type f) lit = Some cv ->
@@ -135,10 +189,11 @@ Theorem C06_default_refuted_list_obj :
   dump (VList [VFieldInfo]) = None.
 Proof. vm_compute. auto. Qed.
 
-(* enum default whose value is a Python keyword: Kind.class is a syntax error (the member is class_) *)
-Theorem C06_default_refuted_kw_enum :
+(* regression of the former F9c witness: a keyword-named enum value refers to the renamed member class_ *)
+Example C06_default_kw_enum_ok :
   let f := fld (TNamed "Kind") (CEnum "class") in
-  CD f = Some (CEnum "class") /\ EV f = Some (Err ESyntax).
+  CD f = Some (CEnum "class") /\ EV f = Some (Ok (VEnum "Kind" "class")) /\
+  good_default SD (CEnum "class") (TNamed "Kind") = true.
 Proof. vm_compute. auto. Qed.
 
 (* a single value for a list type / an Int literal for ID: emitted uncoerced *)
@@ -175,12 +230,18 @@ Definition JX : json :=
         ("self", JObj [("class", JArr [])])].
 
 Example C06_hypotheses_satisfiable :
-  schema_ok true SX = true /\ g21 (TNonNull (TNamed "In")) true = true /\
+  schema_ok true SX = true /\
   (exists cv, coerce_input 6 SX (TNonNull (TNamed "In")) JX = Some cv) /\
   accepts 6 (env_of SX [] true) (fst (parse_input_field_type SX [] (TNonNull (TNamed "In")) true)) JX = true /\
   good_default SX (CList [CList [CStr "x"]; CNull]) (TList (TList (TNonNull (TNamed "String")))) = true /\
-  good_default SX (CEnum "A") (TNamed "Kind") = true /\ good_default SX (CEnum "class") (TNamed "Kind") = false.
+  good_default SX (CEnum "A") (TNamed "Kind") = true /\ good_default SX (CEnum "class") (TNamed "Kind") = true.
 Proof. vm_compute. repeat split; eauto. Qed.
+
+Example C06_rename_nontrivial :
+  rename 6 SX true (TNonNull (TNamed "In")) JX =
+  JObj [("class_", JArr [JObj [("foo_bar", JInt 1); ("tags", JArr [JNull; JArr [JStr "t"]])]]);
+        ("self", JObj [("class_", JArr [])])].
+Proof. vm_compute. reflexivity. Qed.
 
 (* an object default of scalars works in the model: instance with only required fields, dumped by alias *)
 Example C06_object_default_ok :
